@@ -110,8 +110,7 @@ def add_custom_natives(reg):
 
 
 CUSTOM_HELP = {
-    'inplace_pow': {'options': {'int_lemmas': []},
-                    'lemmas': {'exit': {'reduce': '(modulus is not None and ival(modulus) > 0) ==> modpow_reduce(ival(old(self)), ival(exponent), ival(modulus))'}}},
+    'inplace_pow': {'lemmas': {'exit': {'reduce': '(modulus is not None and ival(modulus) > 0) ==> modpow_reduce(ival(old(self)), ival(exponent), ival(modulus))'}}},
 }
 
 
@@ -124,6 +123,10 @@ def ltb_accepting_integers(reg):
     c.raises = {k: (m, cond.replace('n < 0', 'ival(n) < 0')) for k, (m, cond) in c.raises.items()}
     import re
     c.ensures = {k: re.sub(r'\bn\b', 'ival(n)', cl) for k, cl in c.ensures.items()}
+    # consequences of be(result) == n by positional notation (be(b) < 256**len(b); a non-zero leading digit gives the lower
+    # bound), stated here so that the wrappers' proofs need no general arithmetic lemmas about be()
+    c.ensures['bound'] = 'ival(n) < pow2(8 * len(result))'
+    c.ensures['lower'] = '(blocksize == 0 and ival(n) > 0) ==> ival(n) >= pow2(8 * (len(result) - 1))'
     c.assumed = c.assumed + ' (restated over ival(n) for Integer arguments)'
     reg.contracts[q] = c
     return reg
@@ -136,7 +139,8 @@ def custom_registry():
     add_custom_natives(reg)
     ltb_accepting_integers(reg)
     interface_contracts(reg, IC, FRAME['native'], names=['inplace_pow'], per_method=CUSTOM_HELP)
-    static_contracts(reg, IC, impl_cls=IC, help_={'skip_init': True, '_mult_modulo_bytes': {'options': {'int_lemmas': []}}})
+    static_contracts(reg, IC, impl_cls=IC, help_={'skip_init': True, '_mult_modulo_bytes': {
+        'lemmas': {'exit': {'mulmod': 'mulmod_reduce(ival(term1), ival(term2), ival(modulus))'}}}})
     return reg
 
 
